@@ -285,6 +285,7 @@ static uint32_t P_pthread_join(uint64_t tid, void *retp) {
   return 0;
 }
 static void *P_strerror(uint32_t e) { (void)e; return (void *)0; }
+static uint64_t P_fwrite(void *p, uint64_t sz, uint64_t n, void *f) { (void)p; (void)sz; (void)f; return n; }
 static uint32_t P_compat_futex_async(void *a, uint32_t op, uint32_t v, void *t, void *a2, uint32_t v3) {
   (void)a; (void)op; (void)v; (void)t; (void)a2; (void)v3;
   RT_ASSERT(0, "compat_futex_async reached but not modelled in this obligation"); return 0; }
